@@ -416,6 +416,8 @@ func (v *Verifier) structural(cfg PropConfig, sc StructuralCheck) []StructResult
 		return v.immutableFields(cfg, sc)
 	case "event_logged_once":
 		return v.eventLoggedOnce(cfg, sc)
+	case "globals_init_only":
+		return v.globalsInitOnly(cfg, sc)
 	case "callers_subset":
 		var a struct {
 			Callee  string   `json:"callee"`
